@@ -11,7 +11,7 @@ PROPERTY_ID = "C04"
 TECHNIQUE = "Hypothesis-generated detectors x hyper-parameters x data; validity predicate over the sparse output written from the property text"
 ASSUMPTIONS = [
     "hyper-parameters are generated inside the documented domains only; data are finite and of admissible length",
-    "threshold detectors: the predicate is asserted only when the fitted threshold_ is >= 0 (a tuned threshold can be rounded below 0 on exactly constant data; C07-C09 define detections for thresholds >= 0)",
+    "the predicate is asserted whatever the sign of the fitted threshold_ (a tuned threshold is negative when the scores of quiet stretches are rounding noise, D30 / D35)",
     "the documented not-positive-definite RuntimeError is an accepted outcome for multivariate Gaussian scorers",
 ]
 
@@ -43,6 +43,13 @@ def cases(draw, tier, det):
         # a significance level close to 1 (accepted: the documented domain is level > 0): for n close to 2 * bandwidth the
         # default threshold is then negative (D30)
         params["level"] = draw(st.sampled_from([0.999, 0.9999, 0.99999, 0.995]))
+    if det in ("SeededBinarySegmentation", "CircularBinarySegmentation") and draw(st.integers(0, 3)) == 0:
+        # a tuned threshold at a generous level on readings far from zero (1e6 + noise of 1e-3): the scores of quiet stretches are
+        # rounding noise of either sign and the tuned quantile comes out negative - not a rounding artefact of 1e-18 but -1e-3 (D35)
+        params["threshold_scale"] = None
+        params["level"] = draw(st.sampled_from([0.5, 0.9, 0.99, 0.7]))
+        case["level"] = draw(st.sampled_from([1e6, 3e4, 0.0]))
+        case["unit"] = draw(st.sampled_from([1e-3, 1.0]))
     if det in ("CAPA", "MVCAPA"):
         at_n = draw(st.sampled_from([None, None, None, -1, 0, 1]))
         if at_n is not None and n + at_n >= params["min_segment_length"]:
@@ -56,8 +63,8 @@ def cases(draw, tier, det):
         case["X"] = draw(D.any_matrix(n, p))
     else:
         case["X"], _ = draw(D.structured_matrix(n, p, boundary_positions=(0, 1, bw - 1, bw, n - bw, n - 1)))
-    if case.get("level"):
-        case["X"] = [[v + case["level"] for v in row] for row in case["X"]]
+    if case.get("level") or case.get("unit"):
+        case["X"] = [[v * case.get("unit", 1.0) + case.get("level", 0.0) for v in row] for row in case["X"]]
     if case["second"] == "refill":
         case["X2"] = draw(D.any_matrix(n, p))
     case["n_min"] = n_min
@@ -129,8 +136,6 @@ def check(case):
     thr = getattr(det, "threshold_", None)
     if name == "StatThresholdAnomaliser":
         thr = getattr(det.change_detector_, "threshold_", None)
-    if thr is not None and thr < 0 and name != "MovingWindow":
-        return {"nontrivial": False, "classes": ["negative_tuned_threshold_excluded"]}
     if thr is not None and thr < 0:
         classes.append("negative_threshold")
     info = K.check_wellformed(name, params, n, p, y)
